@@ -46,6 +46,11 @@ CLAIMS = {
    "C11_nothrow / C11_never_terminate: the non-throwing PBKDF2 only returns false, nothing terminates; C11_pinned_refuted keeps finding F2 machine-checked. Decoders (total, never throw) are C13-C15. "
    "Correspondence: ~11k forked calls over the cross product of per-parameter classes incl. selectors -1/3/7/255/INT_MIN/INT_MAX, L = SIZE_MAX-30..SIZE_MAX, iteration and dk_len limits, clock failures; observed verdict incl. terminate / crash / 'false but output written'.",
    note="Acceptance at limits that cannot be executed (dk_len = (2^32-1)*hLen, message length SIZE_MAX-block) is covered by the theorem and by the reject side of the boundary only.", ref="DESIGN.md 7/C11"),
+ "C15": dict(text="Theorems C15_encode, C15_alphabet, C15_decode, C15_roundtrip, C15_decoded_ok (+ C15_spec_numerals, C15_fuel_unreachable): the models of base36_encode (repeated long division of the byte vector by 36, leading-zero rule, "
+   "the n+1 zeros convention) and base36_decode (per-character classification inside the multiply-accumulate loop, carry propagation, front insertion, leading-zero stripping) equal the documented contract - one '0' per leading zero byte followed by the base-36 numeral, "
+   "decoder accepting exactly ASCII letters and digits case-insensitively - for every byte string / character string, and decode(encode d) = d; loop fuel is proved sufficient (exhaustion marker unreachable). "
+   "Correspondence: 3 encoder forms, decoder into reused vector / secure_buffer objects (left empty on failure) and a fresh vector; all single bytes and characters, long numerals, zero runs, invalid characters by position.",
+   note="", ref="DESIGN.md 7/C15"),
  "C09": dict(text="Theorem C09_exact: the model of constant_time_equals (loop over max length, implicit zeros, length-mismatch seed) returns true iff the byte lists are equal, for all lengths and contents. "
    "Correspondence: six overloads on length pairs incl. differences of 256k, every single-bit difference position, cancelling differences.",
    note="", ref="DESIGN.md 7/C09"),
